@@ -190,6 +190,31 @@ func (e *Exec) evalCallInner(st *State, call *ast.CallExpr) []Term {
 							}
 						}
 					}
+					// registered implementations: what they write in their own package, under their rely clauses
+					if bt := e.typeOf(f.X); bt != nil {
+						if isPointer(bt) {
+							bt = bt.Underlying().(*types.Pointer).Elem()
+						}
+						if n, ok := types.Unalias(bt).(*types.Named); ok {
+							pre := st.Clone()
+							for _, impl := range e.P.cbImplsOf(n.Obj().Name() + "." + f.Sel.Name) {
+								pkg := ""
+								if impl.Pkg() != nil {
+									pkg = impl.Pkg().Path()
+								}
+								keys := map[string]bool{}
+								for k := range e.P.ModSet(impl) {
+									if k == "*" || ownPkgKey(k, pkg) {
+										keys[k] = true
+									}
+								}
+								if len(keys) > 0 {
+									e.havocKeys(st, keys)
+								}
+							}
+							e.assumeReliesOf(st, pre, n.Obj().Name()+"."+f.Sel.Name, nil, call.Pos())
+						}
+					}
 					e.havocMemo(st)
 					return e.freshResults(st, call, f.Sel.Name)
 				}
@@ -270,15 +295,16 @@ func (e *Exec) havocKeys(st *State, keys map[string]bool) {
 			ks = append(ks, k)
 		}
 		st.HavocAll = true
+		st.HavocID = e.nextHavocID()
 	} else {
 		for k := range keys {
 			if e.ensureKeySort(k) {
 				ks = append(ks, k)
 			} else {
 				if st.Unknown == nil {
-					st.Unknown = map[string]bool{}
+					st.Unknown = map[string]int{}
 				}
-				st.Unknown[k] = true
+				st.Unknown[k] = e.nextHavocID()
 			}
 		}
 	}
